@@ -14,7 +14,8 @@ open Cluster
 /-- a `provision_batch_resources` call made by `_provision_resources`, that succeeded -/
 def ProvOK (parts minPer : Nat) (split : Option (List (Oid × Nat × Nat))) (oid : Oid) (c c1 : Cluster) : Prop :=
   c.isProvisioned oid = false ∧ c.numProv < (parts : Int) ∧
-    ∃ n, minPer ≤ n ∧ Alg.maxResourceProvision c parts split oid = .ok n ∧ c.provisionBatch n oid = (c1, none)
+    ∃ n, 1 ≤ n ∧ minPer ≤ n ∧ Alg.maxResourceProvision c parts split oid = .ok n ∧
+      c.provisionBatch n oid = (c1, none)
 
 /-- the reservation calls of one block of `allocate_tasks` for observation `oid`: at most one
 provisioning (only for an observation without reservation), then zero, one or two releases, and
@@ -51,9 +52,9 @@ theorem batchRun_resStep (cl : Cluster) (plan : Plan) (view : Tid → TaskView) 
       ∀ x ∈ out.schedule, x ∈ sc ∨ (plan.tasks ≠ [] ∧ x.2 ∈ c1.idleOf (some plan.obs)) := by
   obtain ⟨cl1, b, hpr, hcl, hst, hsch⟩ := batchRun_cl cl plan view parts minPer split sc po out h
   refine ⟨cl1, ?_, ?_, hst, ?_⟩
-  · rcases provisionResources_cases _ _ _ _ _ _ _ hpr with e | ⟨a1, a2, _, n, a3, a4, a5⟩
+  · rcases provisionResources_cases _ _ _ _ _ _ _ hpr with e | ⟨a1, a2, _, n, a0, a3, a4, a5⟩
     · exact Or.inl e
-    · exact Or.inr ⟨a1, a2, n, a3, a4, a5⟩
+    · exact Or.inr ⟨a1, a2, n, a0, a3, a4, a5⟩
   · by_cases he : plan.tasks = []
     · right; refine ⟨he, ?_⟩; rw [hcl]; simp [he]
     · left; refine ⟨he, ?_⟩
